@@ -64,7 +64,7 @@ def _c16_jobs(tier):
     if q:
         jobs.append(("c16_psi", J + ["--depth", 7, "--deadline", dl]))
         # inputs whose definition arrives while a memory request is refused (the joiner rebuilds its own definition)
-        jobs += _sharded(J + ["--join-faults", 1, "--depth", 6], 2, dl)
+        jobs += _sharded(J + ["--join-faults", 1, "--depth", 6], 8, dl)
     else:
         jobs += _sharded(J + ["--depth", 10], 16, dl)
         jobs += _sharded(J + ["--join-faults", 1, "--depth", 8], 8, dl)
